@@ -106,7 +106,10 @@ fn main() {
         }
         i += 2;
     }
-    std::panic::set_hook(Box::new(|_| {}));
+    // panics of the implementation are expected and caught; TT_VERBOSE=1 keeps their messages
+    if std::env::var_os("TT_VERBOSE").is_none() {
+        std::panic::set_hook(Box::new(|_| {}));
+    }
     match o.prop.as_str() {
         #[cfg(feature = "c01")]
         "C01" => c01::run(&o),
